@@ -7,7 +7,8 @@
 (*   MALA Metropolis-adjusted Langevin  cuqi.experimental.mcmc.MALA / cuqi.sampler.MALA *)
 (* on a finite lattice X in Z^d (d = 1: -2..2, d = 2: (-1..1)^2) with a     *)
 (* target given as a TABLE of exact rationals (or NaN / -inf holes) and, for*)
-(* the Langevin kernel, a drift TABLE g.  Nothing in the kernel identities  *)
+(* the Langevin kernel, a drift TABLE g (table "holesg": NaN drift at the   *)
+(* non-finite points).  Nothing in the kernel identities                    *)
 (* depends on the table values, so the tables stand for "every target".     *)
 (*                                                                         *)
 (* Extended rationals: <<n, d>> with d > 0 is n/d (module Rat);             *)
@@ -107,11 +108,12 @@ Hole(d, p) == IF d = 1 THEN (IF p = <<2>> THEN NaN ELSE IF p = <<-2>> THEN NegIn
 Table(d, tgt, p) ==
     CASE tgt = "quad"  -> Quad(d, p)
       [] tgt = "asym"  -> Asym(d, p)
-      [] tgt = "holes" -> IF Hole(d, p) = NA THEN Asym(d, p) ELSE Hole(d, p)
+      [] tgt \in {"holes", "holesg"} -> IF Hole(d, p) = NA THEN Asym(d, p) ELSE Hole(d, p)
 
 \* drift table (the true gradient for "quad"; an arbitrary table otherwise - the MALA identities hold for every drift)
 Grad(d, tgt, p) ==
-    IF tgt = "quad"
+    IF tgt = "holesg" /\ Hole(d, p) # NA THEN [i \in 1..d |-> NaN]     \* the drift is undefined (NaN) where the density is
+    ELSE IF tgt = "quad"
     THEN (IF d = 1 THEN <<RMul(Q(-3, 2), R(p[1] - 1))>>
           ELSE <<RAdd(RMul(Q(-3, 2), R(p[1] - 1)), Q(p[2], 2)), RAdd(R(-(p[2] + 1)), Q(p[1], 2))>>)
     ELSE (IF d = 1 THEN <<R(G1[p[1]])>> ELSE <<R(p[2] - 2 * p[1] + 1), R(1 - p[1])>>)
@@ -147,6 +149,7 @@ Valid(c) == /\ c.x0 \in X(c.d)
             /\ c.sc \in ScalesOf(c.k)
             /\ (c.sc = "percomp" => c.d = 2)
             /\ (c.k = "CW" => c.d = 2)
+            /\ (c.tgt = "holesg" => c.k = "MALA")
             /\ c.tgt \in (IF c.d = 1 THEN Targets1 ELSE Targets2)
             /\ (IF c.k = "PCN" THEN c.m \in PriorMeans ELSE c.m = 0)
 Configs == {c \in [k : Kernels, iface : Ifaces, d : Dims, tgt : Targets1 \cup Targets2, sc : ScaleIds,
